@@ -162,6 +162,11 @@ theorem master_key_share_on_poly (m : Machine F K) (hm : MachineInv m) (round : 
 theorem fresh_inv (me : K) : MachineInv ({ me := me } : Machine F K) := by
   intro r i h; simp [lookup] at h
 
+/-- a signing request changes nothing on the machine -/
+theorem signOp_pure (m : Machine F K) (round : String) (payloadOk : Bool) (msgs : Option Nat) : (signOp m round payloadOk msgs).1 = m := by
+  unfold signOp
+  repeat (first | rfl | split)
+
 theorem exec_inv (m : Machine F K) (op : Op F K) (h : MachineInv m) : MachineInv (exec m op).1 := by
   cases op with
   | commits r e p => exact commitsOp_inv m r e p h
